@@ -297,6 +297,10 @@ func init() {
 			g.ft.FaultInv = 0.3
 			g.ft.PAvail = 0.85
 			g.ft.Wild = []float64{0, 0.1}[g.r.Intn(2)]
+			// dig's own invalid-input rejections, including those that wrap a
+			// foreign error inside dig's chain (malformed tag values)
+			g.ft.MalRate = []float64{0, 0.1, 0.25}[g.r.Intn(3)]
+			g.ft.MalTagsOnly = g.r.P(0.5)
 		}, defaultMix),
 		Eval: evalSimple("C13", func(c *Checked) bool {
 			n := 0
